@@ -128,14 +128,8 @@ def plan(tier):
             ([Config(l, (0, 0, 0, 0), 'D') for l in langs], [('prng', 1), ('prng', 2), ('prng', 3)], 0, 1),
         ]
     sw = [(a, b, c, d) for a in (0, 1) for b in (0, 1) for c in (0, 1) for d in (0, 1)]
-    pol = ['first', 'last', 'alt'] + [('prng', c) for c in range(1, 9)]
-    return [
-        ([Config(l, s, 'S', o) for l in langs for s in sw for o in ('asc', 'desc')], pol, 1, 4),
-        ([Config(l, (0, 0, 0, 0), 'XS') for l in langs], [('prng', 1), ('prng', 2)], 2, 16),
-        ([Config(l, s, 'M') for l in langs for s in [(0, 0, 0, 0), (1, 1, 1, 1)]], pol, 1, 8),
-        ([Config(l, (0, 0, 0, 0), 'D') for l in langs], [('prng', c) for c in range(1, 5)], 1, 32),
-        ([Config(l, s, 'D') for l in langs for s in sw], pol, 0, 1),
-    ]
+    from mc import plans
+    return plans.thorough(langs, 'light')
 
 
 def to_violation(v):
